@@ -590,6 +590,14 @@ func init() {
 				hj(w)
 				w.Write([]byte(`{"access_token":"at","token_type":"Bearer","expires_in":3600}`))
 			}},
+			{"no-id-token-no-expiry", func(w http.ResponseWriter, r *http.Request) {
+				hj(w)
+				w.Write([]byte(`{"access_token":"at-sparse","token_type":"Bearer"}`))
+			}},
+			{"only-refresh-token", func(w http.ResponseWriter, r *http.Request) {
+				hj(w)
+				w.Write([]byte(`{"access_token":"at-sparse2","refresh_token":"rt-sparse2","expires_in":null,"id_token":null}`))
+			}},
 			{"no-access-token", func(w http.ResponseWriter, r *http.Request) {
 				hj(w)
 				w.Write([]byte(`{"token_type":"Bearer","expires_in":3600}`))
@@ -728,7 +736,7 @@ func init() {
 					check(fl.name, "none", rs, b, v, real, false)
 					for _, ep := range fl.endpoints {
 						for _, k := range kinds {
-							if ep == "/keys" && (k.name == "no-id-token" || k.name == "no-access-token" || k.name == "garbage-id-token" || k.name == "wrong-types") {
+							if ep == "/keys" && (k.name == "no-id-token" || k.name == "no-access-token" || k.name == "garbage-id-token" || k.name == "wrong-types" || k.name == "no-id-token-no-expiry" || k.name == "only-refresh-token") {
 								continue
 							}
 							rs, b := fl.setup()
@@ -747,7 +755,7 @@ func init() {
 							resetIDP(e.idp)
 							// a fault on /keys only matters when keys are not cached; on /userinfo only when consulted
 							must := ep == "/token"
-							if (fl.name == "refresh" || fl.name == "refresh-expired") && k.name == "no-id-token" {
+							if (fl.name == "refresh" || fl.name == "refresh-expired") && (k.name == "no-id-token" || k.name == "no-id-token-no-expiry" || k.name == "only-refresh-token") {
 								must = false // a refresh response without id_token legitimately keeps the old identity
 							}
 							check(fl.name, ep+":"+k.name, rs, b, v, real, must)
@@ -793,7 +801,7 @@ func init() {
 				// (signed by another key under the known key id, so the verifier re-fetches the keys) x every kind of failure of
 				// the key endpoint: the session must not be kept
 				for _, k := range kinds {
-					if k.name == "no-id-token" || k.name == "no-access-token" || k.name == "garbage-id-token" || k.name == "wrong-types" {
+					if k.name == "no-id-token" || k.name == "no-access-token" || k.name == "garbage-id-token" || k.name == "wrong-types" || k.name == "no-id-token-no-expiry" || k.name == "only-refresh-token" {
 						continue
 					}
 					k := k
